@@ -167,3 +167,14 @@ pub proof fn lemma_path_index_ideal<H: Hasher>(leaves: Seq<H::Fr>, depth: nat, i
         assert(j == (j % 2) + 2 * (j / 2));
     }
 }
+
+// C15: the ascending list of positions below the high-water mark whose flag is 0
+pub open spec fn empty_positions(flags: Seq<u8>, mark: nat) -> Seq<usize>
+    decreases mark
+{
+    if mark == 0 { Seq::empty() }
+    else {
+        let rest = empty_positions(flags, (mark - 1) as nat);
+        if flags[mark - 1] == 0u8 { rest.push((mark - 1) as usize) } else { rest }
+    }
+}
